@@ -8,8 +8,9 @@ denotes, with ordinary two's-complement fixed-width arithmetic:
   * shifts take the right operand as an unsigned amount; amount >= width gives 0 (sign fill for `asr`);
   * rotations are judged only for amounts < width;
   * ordered comparisons, widening multiply, `/` and `%` are judged only when both operands were declared
-    with the same signedness (`decl` = what the user saw on the operand objects when applying the
-    operator); signed `/` and `%` accept floor and truncate;
+    with the same signedness, unambiguously: `decl` = the sf flags the user saw on the two operand objects
+    *and on every register/constant leaf below them* when applying the operator — all must agree;
+    signed `/` and `%` accept floor and truncate;
   * division by zero, undeclared signedness, `top` leaves, ill-sized trees: not judged (None).
 
 `width(script)` is the width the construction dictates (None when the tree is ill-sized).
@@ -96,7 +97,7 @@ def evaluate(script, decl, rho):
     """rho: {name: unsigned value}.  returns (width, frozenset of acceptable values) or None (not judged)."""
     if width(script) is None:
         return None
-    dd = {k: (ls, rs) for (k, ls, rs) in decl}
+    dd = {d[0]: d[1:] for d in decl}
     st = []   # (width, frozenset)
     for k, ins in enumerate(script):
         o = ins[0]
@@ -117,7 +118,7 @@ def evaluate(script, decl, rho):
         elif o in BINOPS:
             wr, B = st.pop(); w, A = st.pop()
             if o in SIGN_DEP:
-                if k not in dd or dd[k][0] != dd[k][1]:
+                if k not in dd or dd[k][0] != dd[k][1] or (len(dd[k]) > 2 and len(dd[k][2]) != 1):
                     return None
                 signed = dd[k][0]
             if o == "add":
